@@ -471,11 +471,11 @@ Section Typed.
   Qed.
 End Typed.
 
-Lemma map_r_forall : forall (P : expr -> Prop) (orec : json -> res expr) l,
+Lemma map_r_forall : forall A B (P : B -> Prop) (orec : A -> res B) l,
   (forall x, In x l -> exists e, orec x = ROk e /\ P e) ->
   exists es, map_r orec l = ROk es /\ Forall P es /\ length es = length l.
 Proof.
-  intros P orec l. induction l as [|y l IH]; intros H.
+  intros A B P orec l. induction l as [|y l IH]; intros H.
   - exists []. repeat split. constructor.
   - destruct (H y (or_introl eq_refl)) as [e [He Pe]].
     destruct (IH (fun x Hx => H x (or_intror Hx))) as [es [Hes [Pes Hl]]].
@@ -530,7 +530,7 @@ Proof.
     { intros x Hin. destruct l as [|y l]; [destruct Hin|].
       apply rbind_ok in H. destruct H as [uu [Hu _]]. destruct uu.
       destruct (each_ok_in _ _ _ _ Hu x Hin) as [k' Hk]. exact (IH _ _ _ Hk Hf). }
-    destruct (map_r_forall _ _ _ Hall) as [es [Hes [Pes _]]]. rewrite Hes. cbn.
+    destruct (map_r_forall _ _ _ _ _ Hall) as [es [Hes [Pes _]]]. rewrite Hes. cbn.
     eexists. split; [reflexivity|]. exact (typed_vec T g t t0 es Hg Pes).
   - (* set *)
     destruct d; try discriminate H. cbn.
@@ -539,7 +539,7 @@ Proof.
     { intros x Hin. destruct l as [|y l]; [destruct Hin|]. rewrite Hx in H.
       apply rbind_ok in H. destruct H as [uu [Hu _]]. destruct uu.
       destruct (v_set_elems_in _ _ _ Hu x Hin) as [k' Hk]. exact (IH _ _ _ Hk Hf). }
-    destruct (map_r_forall _ _ _ Hall) as [es [Hes [Pes _]]]. rewrite Hes. cbn.
+    destruct (map_r_forall _ _ _ _ _ Hall) as [es [Hes [Pes _]]]. rewrite Hes. cbn.
     eexists. split; [reflexivity|]. exact (typed_set T g t t0 es Hg Pes).
   - (* array *)
     destruct d; try discriminate H. cbn.
@@ -548,7 +548,7 @@ Proof.
     assert (Hall : forall x, In x l -> exists e, output_value T n t0 x = ROk e /\ expr_typed T g e t0 = true).
     { intros x Hin. apply rbind_ok in H. destruct H as [uu [Hu _]]. destruct uu.
       destruct (each_ok_in _ _ _ _ Hu x Hin) as [k' Hk]. exact (IH _ _ _ Hk Hf). }
-    destruct (map_r_forall _ _ _ Hall) as [es [Hes [Pes Hl]]]. rewrite Hes. cbn.
+    destruct (map_r_forall _ _ _ _ _ Hall) as [es [Hes [Pes Hl]]]. rewrite Hes. cbn.
     eexists. split; [reflexivity|]. apply N.eqb_eq in El.
     refine (typed_array T g t t0 n0 es Hg _ Pes). rewrite Hl. exact El.
   - (* tuple *)
